@@ -17,8 +17,8 @@ WORKERS = {"video_source_thread": "source", "video_filter_thread": "filter", "vi
 class ApiModel:
     def __init__(self, prog):
         self.prog = prog
-        self.cam = HalModel(prog, "Camera", ns=":cam")
-        self.sto = HalModel(prog, "Storage", ns=":sto")
+        self.cam = HalModel(prog, "Camera", ns=":cam", wellbehaved=True)
+        self.sto = HalModel(prog, "Storage", ns=":sto", wellbehaved=True)
         self.kinds = dict(prog.enum_values("DeviceKind"))
         self.astatus = dict(prog.enum_values("AcquireStatusCode") or [])
         self.dstate = dict(prog.enum_values("DeviceState"))
@@ -284,10 +284,49 @@ class ApiModel:
                 ("abort", stop_like("acquire_abort")), ("get_state", get_state), ("shutdown", shutdown)]
 
 
-def simulate(prog, max_states=6000):
+def simulate(prog, max_states=6000, skip=()):
     m = ApiModel(prog)
     it = m.make_interp()
     inits = m.initial(it)
-    ex = Explorer(it, m.ops(it), max_states=max_states)
+    ops = []
+    drop = {m.cam.G_LAST, m.sto.G_LAST}
+
+    def clean(s2):
+        # per-call ghosts and the contents of the (abstract) ring carry nothing
+        # from one API call to the next
+        s2 = s2.delete_where(lambda k: k in drop or k[0] == "obj:ring")
+        return s2.set(("obj:ring", ("<t>",)), 1)
+    for name, op in m.ops(it):
+        if skip and name in skip:
+            continue
+
+        def wrapped(interp, st, op=op):
+            return [(lab, clean(s2) if s2 is not None else None) for lab, s2 in (op(interp, st) or [])]
+        ops.append((name, wrapped))
+    ex = Explorer(it, ops, max_states=max_states, bfs=True, on_bound="stop")
     ex.explore(inits)
+    return m, it, ex
+
+
+def run_rules(prog, res, rules, label, max_states=4000):
+    """Run the API-level simulation and report the findings of `rules`."""
+    m, it, ex = simulate(prog, max_states=max_states, skip=("configure(B)",))
+    if it.truncated:
+        raise AnalysisBroken("API simulation truncated: %s" % it.truncated[:3])
+    mine = {k: r for k, r in it.reports.items() if r["rule"] in rules}
+    for key, r in sorted(mine.items()):
+        res.fail(r["rule"], key.split("|", 1)[-1], key, "acquire.c", r["message"], r["witness"])
+    res.oblige(label, "acquire API x controllers x HAL x well-behaved abstract drivers, sequential worker model",
+               not mine,
+               "%d abstract inter-call states, %d transitions, %d inlined calls%s; ops: configure, start, run(source|filter|sink), stop, abort, get_state, shutdown"
+               % (len(ex.states), ex.transitions, it.stats["calls"], " (bounded at %d states, breadth first)" % max_states if ex.bounded else " (fixpoint)"),
+               "acquire.c")
+    for k, st in list(ex.states.items())[:5]:
+        res.samples.append({"api_history": ex.witness[k], "pending_workers": m.pending(st),
+                            "camera_started": st.get(m.cam.G_STARTED), "storage_started": st.get(m.sto.G_STARTED)})
+    res.extra["api_sim"] = {"states": len(ex.states), "transitions": ex.transitions, "fixpoint": not ex.bounded,
+                            "externals_seen": sorted(m.externals)}
+    for fn in ("acquire_init", "acquire_configure", "acquire_start", "acquire_stop", "acquire_abort",
+               "acquire_get_state", "acquire_shutdown"):
+        res.touched(prog.func(fn))
     return m, it, ex
